@@ -115,6 +115,10 @@ func (k Keeper) ToggleClient(
 		return sdkerrors.Wrapf(types.ErrInvalidClientType, "cannot toggle client %s, client-type can't be the same", chainName)
 	}
 
+	// the consensus states and the metadata of the old client type cannot be read by the new client type and
+	// make the exported genesis invalid (consensus state type differs from the client state type; the old
+	// metadata is not exported): the new client starts from an empty client store, as after CreateClient
+	k.clearClientStore(ctx, chainName)
 	k.SetClientState(ctx, chainName, newClientState)
 	// initialize the client store with the metadata of the new client type, as CreateClient does
 	if err := newClientState.Initialize(ctx, k.cdc, k.ClientStore(ctx, chainName), newConsensusState); err != nil {
